@@ -1108,12 +1108,11 @@ func genRequest(t *kernel.Tape, u *universe, servers map[string]*agd.Server, kin
 		id = kernel.Pick(t, []string{"adr", "win", "OTR", "xxx", "rt"}, "dev-type") + "-" +
 			kernel.Pick(t, []string{"prof0", "prof1", "prof2", "nosuch", "PROF1"}, "ext-prof") + "-" +
 			kernel.Pick(t, []string{"phone-one", "Phone-One", "tablet", "spare", "newdev", "NewDev"}, "human")
-		if r.srv.Protocol == agd.ProtoDoH && t.Chance(1, 3, "name-not-in-normal-form") {
+		if r.srv.Protocol == agd.ProtoDoH && t.Chance(1, 2, "name-not-in-normal-form") {
 			// A name that has to be normalised first (a URL path can carry
-			// it).
-			id = id[:strings.LastIndex(id[:len(id)-1], "-")+1]
+			// it); few of them, so that they come again.
 			id = strings.Join(strings.SplitN(id, "-", 3)[:2], "-") + "-" +
-				kernel.Pick(t, []string{"New--Dev!!", "Other_Tab!!", "My--Phone!", "tablet!!!", "Spare__"}, "odd-human")
+				kernel.Pick(t, []string{"New--Dev!!", "Other_Tab!!", "My--Phone!"}, "odd-human")
 		}
 	}
 
